@@ -33,7 +33,7 @@ VARIABLES kind, art, steps, bound, folds, closed
 vars == <<kind, art, steps, bound, folds, closed>>
 
 Formats == {"text", "npy"}
-Vias == {"file", "pipe"}
+Vias == {"file", "pipe", "fifo"}     \* fifo (producers only): handed over through a named pipe whose PATH is given to the reader
 
 HalfUnit(p) == QDiv(QMk(1, 2), QPow(QI(10), p))
 
@@ -87,9 +87,9 @@ Stat == /\ Open
         /\ UNCHANGED <<kind, art, bound, folds>>
 
 Next ==
-    \/ \E f \in Formats, p \in Precisions, v \in Vias, l \in BOOLEAN, st \in BOOLEAN :
+    \/ \E f \in Formats, p \in Precisions, v \in {"file", "pipe"}, l \in BOOLEAN, st \in BOOLEAN :
            (f = "npy" => p = 6) /\ (l => v = "pipe") /\ View(f, p, v, l, st)
-    \/ \E p \in Precisions, v \in Vias, l \in BOOLEAN, st \in BOOLEAN : (l => v = "pipe") /\ Fold(p, v, l, st)
+    \/ \E p \in Precisions, v \in {"file", "pipe"}, l \in BOOLEAN, st \in BOOLEAN : (l => v = "pipe") /\ Fold(p, v, l, st)
     \/ Stat
 
 Spec == Init /\ [][Next]_vars
